@@ -561,6 +561,15 @@ def go_view(script, go):
     for st, o in zip(script["steps"], go.get("obs") or []):
         if st["op"] in ("wait_caller", "cancel") and o.get("res") == "ok" and st["caller"] not in first_seen:
             first_seen[st["caller"]] = o
+    # a frame sent in two pieces (`cut` = k, then the same frame with `skip` = k) is ONE frame the peer sent
+    merged = []
+    for p in peer:
+        if p.get("skip") is not None and merged and merged[-1].get("cut") == p["skip"] and \
+                (merged[-1]["typ"], merged[-1]["len"], merged[-1]["hash"], merged[-1].get("to")) == (p["typ"], p["len"], p["hash"], p.get("to")):
+            merged[-1] = dict(merged[-1], cut=None, skip=None, split=p["skip"], st=p.get("st"))
+        else:
+            merged.append(p)
+    peer = merged
     # a `reply` step answers the frame with index `to`: find the caller that frame belongs to (by content)
     for p in peer:
         p["answers"] = None
@@ -597,8 +606,10 @@ def pred_c03(view):
             continue
         foreign = [p for p in cands if p.get("answers") is not None and p["answers"] != c]
         if foreign and not [p for p in cands if p.get("answers") in (None, c)]:
-            bad.append(("reply-misdelivered", "caller %d received the peer's answer to caller %d's request (frame id %d): "
-                        "the two requests carried the same message id on the wire" % (c, foreign[0]["answers"], foreign[0]["id"])))
+            why = ("the two requests carried the same message id on the wire" if foreign[0]["id"] in ids else
+                   "its own request carried id %s — the reply did not travel by id but through a reply channel it shares with the other caller" % ids)
+            bad.append(("reply-misdelivered", "caller %d received the peer's answer to caller %d's request (frame id %d): %s" % (
+                c, foreign[0]["answers"], foreign[0]["id"], why)))
             continue
         mine = [p for p in cands if p["id"] in ids] if ids else []
         if res["typ"] in UNSOLICITED:
@@ -684,16 +695,37 @@ def pred_c07(view, strict_pending=4):
         return bad
     pending = []      # keep-alive ids not yet acknowledged (in order)
     must = []         # [id, must_be_acked, acked]
+    settled = set()   # indices into must: keep-alives whose fate was decided at an earlier drain (acked or dropped)
     for kind, mid in order:
+        if kind == "drain":
+            # the peer has read everything the client had to write: a keep-alive that is not acknowledged by now was
+            # dropped by the ackHandler (allowed only with a backlog); it is no longer pending for later keep-alives
+            for k, m in enumerate(must):
+                if k in settled:
+                    continue
+                settled.add(k)
+                if m[1] and not m[2]:
+                    bad.append(("keepalive-not-acked", "keep-alive id %d (at most %d pending before it) was never acknowledged" % (m[0], strict_pending)))
+            continue
+        if kind == "idle":
+            # the peer asked for the next frame, the client was quiescent and wrote nothing: every keep-alive that had to
+            # be enqueued must have been acknowledged by now — acknowledging may not wait for anything else (replies to
+            # outstanding requests, further traffic)
+            for k, m in enumerate(must):
+                if k not in settled and m[1] and not m[2]:
+                    bad.append(("keepalive-ack-stalled", "keep-alive id %d is not acknowledged although the peer is reading and the "
+                                "client is idle (at most %d were pending before it)" % (m[0], strict_pending)))
+                    break
+            continue
         if kind == "ka-unread":
             if view.get("serving", True):
                 bad.append(("keepalive-not-read", "keep-alive id %d was not even read by the client although the connection is up "
                             "(the read loop is stuck)" % mid))
             continue
         if kind == "ka":
-            must.append([mid, len([m for m in must if not m[2]]) <= strict_pending, False])
+            must.append([mid, len([m for k, m in enumerate(must) if not m[2] and k not in settled]) <= strict_pending, False])
         elif kind == "ack":
-            tgt = next((m for m in must if not m[2] and m[0] == mid), None)
+            tgt = next((m for k, m in enumerate(must) if not m[2] and m[0] == mid and k not in settled), None)
             if tgt is None:
                 bad.append(("ack-without-keepalive", "KeepAliveAck id %d does not answer a pending keep-alive" % mid))
                 continue
@@ -704,7 +736,9 @@ def pred_c07(view, strict_pending=4):
     if [m[3] for m in acked_order] != sorted(m[3] for m in acked_order):
         bad.append(("ack-order", "acknowledgements out of order: %s" % [(m[0], m[3]) for m in acked_order]))
     if view.get("drained"):
-        for m in must:
+        for k, m in enumerate(must):
+            if k in settled:
+                continue
             if m[1] and not m[2]:
                 bad.append(("keepalive-not-acked", "keep-alive id %d (at most %d pending before it) was never acknowledged" % (m[0], strict_pending)))
     return bad
@@ -722,10 +756,13 @@ def c07_order(script, go):
                 order.append(("ka-unread", st.get("id", 0)))
         elif op == "expect_frame" and o.get("st") == "ok" and o["typ"] == T_ACK:
             order.append(("ack", o["id"]))
+        elif op == "expect_frame" and o.get("st") == "none":
+            order.append(("idle", None))
         elif op == "drain":
             for f in o.get("frames") or []:
                 if f.get("st") == "ok" and f["typ"] == T_ACK:
                     order.append(("ack", f["id"]))
+            order.append(("drain", None))
     drained = any(st["op"] == "drain" for st in script["steps"][-3:])
     return order, drained
 
